@@ -40,6 +40,14 @@ Step(ev) ==
     [] ev.a = "sset"     -> SSet(ev.arg.o + 1, ev.arg.m, ev.arg.c, ev.arg.n)
     [] OTHER             -> FALSE
 
+(* a call during which the injected allocation failure was met (arg.fail = k, obs.fired = 1) and that was refused:   *)
+(* refusal for lack of memory, nothing changes, nothing lost                                                          *)
+Failed(ev) == /\ "fail" \in DOMAIN ev.arg /\ ev.arg.fail > 0
+              /\ "fired" \in DOMAIN ev.obs /\ ev.obs.fired = 1 /\ ev.obs.ret = "refused"
+              /\ ev.a \in {"set", "reset", "auto", "copy", "sset"}
+StepN(ev) == Same /\ obs' = [a |-> ev.a, arg |-> ev.arg, tgt |-> "", den |-> <<>>,
+                             exp |-> Exp("refused") @@ [leak |-> 0, badfree |-> 0]]
+
 (* how the specification classifies the recorded set calls (vacuity figures) *)
 ClassNo(ev) ==
   IF ev.a # "set" THEN 6
@@ -63,7 +71,7 @@ TraceNext ==
   /\ l' = l + 1
   /\ UNCHANGED ops
   /\ LET ev == TraceLog[l] IN
-       Step(ev) /\ Matches(ev) /\ Bump(ev)
+       (IF Failed(ev) THEN StepN(ev) ELSE Step(ev)) /\ Matches(ev) /\ Bump(ev)
 
 TraceSpec == TraceInit /\ [][TraceNext]_<<vars, l>>
 
